@@ -38,6 +38,10 @@ class Monitor(Observer):
         self.ctx.count("pnl-dates-checked", max(0, n - 1))
         for key, msg in M.pnl_check(bt, root, n, user):
             self.ctx.violation("C02/" + key, msg, {"spec": spec, "mode": "history"})
+        # "coupons less holding costs": from the frames that were supplied, each side of the cost schedule on its own
+        for key, msg in M.carry_inputs_check(bt, root, spec):
+            self.ctx.violation("C02/" + key, msg, {"spec": spec, "mode": "history"})
+            break
 
 
 def check_program(ctx, bt, spec, b, log):
